@@ -26,6 +26,8 @@ FLOORS["quick"].update({'higher_arrived_between_pick_and_start': 30, 'echoed_arr
 FLOORS["thorough"].update({'higher_arrived_between_pick_and_start': 150, 'echoed_arrivals_inside_next_hop_put': 20000})
 FLOORS["quick"].update({'priority_table_object_reused_cases': 180})
 FLOORS["thorough"].update({'priority_table_object_reused_cases': 900})
+FLOORS["quick"].update({'deep_queue_cases': 40, 'many_level_cases': 40})
+FLOORS["thorough"].update({'deep_queue_cases': 200, 'many_level_cases': 200})
 
 
 def plan(tier):
